@@ -2,8 +2,9 @@
 """import sub-agent deliveries from /tmp/seed_out/<ID>/ into /verif/seeded/<ID>-<k>/"""
 import json, os, shutil, sys, glob
 VERIF = os.path.dirname(os.path.dirname(os.path.abspath(__file__)))
-pid = sys.argv[1]
-src = (sys.argv[2] if len(sys.argv) > 2 else "/tmp/seed_out") + f"/{pid}"
+slot = sys.argv[1]                      # property id, optionally followed by the angle letter of tools/seed_prompts.py (C20d)
+pid = slot[:3]
+src = (sys.argv[2] if len(sys.argv) > 2 else "/tmp/seed_out") + f"/{slot}"
 existing = [int(os.path.basename(x).split("-")[1]) for x in glob.glob(os.path.join(VERIF, "seeded", f"{pid}-*"))]
 offset = int(sys.argv[3]) if len(sys.argv) > 3 else (max(existing) if existing and len(sys.argv) > 2 else 0)
 for patch in sorted(glob.glob(f"{src}/patch*.diff")):
